@@ -195,6 +195,44 @@ def segments(tokens, lo, hi):
     return segs
 
 
+_TESTMOD = re.compile(r"#\[cfg\((?:test|all\(test[^\]]*|any\(test[^\]]*)\)\]\s*"
+                      r"(?:#\[[^\]]*\]\s*)*(?:pub(?:\(crate\))?\s+)?mod\s+\w+\s*\{")
+
+
+def strip_test_modules(src):
+    """blank out (keeping line numbers) every `#[cfg(test...)] mod x { ... }` block"""
+    out = src
+    pos = 0
+    while True:
+        m = _TESTMOD.search(out, pos)
+        if not m:
+            return out
+        i = m.end()
+        depth = 1
+        n = len(out)
+        while i < n and depth:
+            c = out[i]
+            if c == "{":
+                depth += 1
+            elif c == "}":
+                depth -= 1
+            elif c == '"':
+                # skip string literal
+                i += 1
+                while i < n and out[i] != '"':
+                    if out[i] == "\\":
+                        i += 1
+                    i += 1
+            elif c == "/" and out[i:i + 2] == "//":
+                while i < n and out[i] != "\n":
+                    i += 1
+                continue
+            i += 1
+        blank = "".join(ch if ch == "\n" else " " for ch in out[m.start():i])
+        out = out[:m.start()] + blank + out[i:]
+        pos = i
+
+
 class Analyzer:
     def __init__(self, repo, family, namespace_dirs):
         self.repo = repo
@@ -226,9 +264,7 @@ class Analyzer:
         except OSError:
             return None, 0, 0
         if strip_tests:
-            cut = re.search(r"#\[cfg\(test\)\]\s*(pub(\(crate\))?\s+)?mod\s+\w+\s*\{", src)
-            if cut:
-                src = src[:cut.start()]
+            src = strip_test_modules(src)
         toks = lex(src)
         findings = []
         npairs = 0
@@ -236,45 +272,59 @@ class Analyzer:
         fam = self.fam
         for name, a, b in fn_items(toks):
             segs = segments(toks, a, b)
-            by_skel = {}
+            members_all = []
             for (s, e) in segs:
                 if e - s + 1 < 3:
                     continue
                 skel = []
-                tags = []
-                idents = []
+                tags = []       # per token: tag or None
                 for i in range(s, e + 1):
                     k, t, _ln = toks[i]
+                    tg = None
                     if k == "id":
                         tg = fam.tag_of(t)
                         # crate paths `sapling::` / `orchard::` are neutral
                         if tg and i + 1 <= e and toks[i + 1][1] == "::" and t.islower() and \
                                 t in fam.tags.values():
                             tg = None
-                        if tg:
-                            skel.append(fam.abstract(t))
-                            tags.append(tg)
-                            idents.append((t, i))
-                            continue
-                    skel.append(t)
-                if not tags:
+                    skel.append(fam.abstract(t) if tg else t)
+                    tags.append(tg)
+                if not any(tags):
                     continue
                 nsegs += 1
-                by_skel.setdefault(tuple(skel), []).append((s, e, tags, idents))
-            for skel, members in by_skel.items():
+                shape = tuple(toks[i][0] if toks[i][0] in ("id", "num", "str", "life") else toks[i][1]
+                              for i in range(s, e + 1))
+                members_all.append((s, e, skel, tags, shape))
+            buckets = {}
+            for m in members_all:
+                buckets.setdefault(m[4], []).append(m)
+            for shape, members in buckets.items():
                 if len(members) < 2:
                     continue
                 for x in range(len(members)):
                     for y in range(x + 1, len(members)):
                         A, B = members[x], members[y]
-                        if A[2] == B[2] and [i[0] for i in A[3]] == [i[0] for i in B[3]]:
-                            continue     # identical text: not a renaming pair
-                        # nested duplicates: skip if one contains the other
                         if (A[0] <= B[0] and B[1] <= A[1]) or (B[0] <= A[0] and A[1] <= B[1]):
                             continue
+                        n = len(A[2])
+                        same = sum(1 for u, v in zip(A[2], B[2]) if u == v)
+                        if same < n * 0.8 or n - same > 6:
+                            continue
+                        # positions tagged on both sides
+                        both = [i for i in range(n) if A[3][i] and B[3][i]]
+                        if len(both) < 1:
+                            continue
+                        ta = [A[3][i] for i in both]
+                        tb = [B[3][i] for i in both]
+                        ia = [(toks[A[0] + i][1], A[0] + i) for i in both]
+                        ib = [(toks[B[0] + i][1], B[0] + i) for i in both]
+                        if ta == tb and [q[0] for q in ia] == [q[0] for q in ib]:
+                            continue
                         npairs += 1
-                        fnd = self.compare(relpath, name, toks, A, B)
-                        findings.extend(fnd)
+                        findings.extend(self.compare(relpath, name, toks, (A[0], A[1], ta, ia),
+                                                     (B[0], B[1], tb, ib)))
+                        findings.extend(self.compare(relpath, name, toks, (B[0], B[1], tb, ib),
+                                                     (A[0], A[1], ta, ia)))
         # dedupe nested reports (same identifier token reported through enclosing segments)
         seen = set()
         out = []
